@@ -263,7 +263,12 @@ type gateReader struct {
 
 func newGateReader() *gateReader { g := &gateReader{}; g.cond = sync.NewCond(&g.mu); return g }
 
-func (g *gateReader) push(b []byte) { g.mu.Lock(); g.queue = append(g.queue, b); g.cond.Broadcast(); g.mu.Unlock() }
+func (g *gateReader) push(b []byte) {
+	g.mu.Lock()
+	g.queue = append(g.queue, b)
+	g.cond.Broadcast()
+	g.mu.Unlock()
+}
 func (g *gateReader) finish(err error) {
 	g.mu.Lock()
 	g.final, g.hasFin = err, true
@@ -289,7 +294,11 @@ func (g *gateReader) Read(p []byte) (int, error) {
 	}
 	return n, nil
 }
-func (g *gateReader) isBlocked() bool { g.mu.Lock(); defer g.mu.Unlock(); return g.blocked && len(g.queue) == 0 }
+func (g *gateReader) isBlocked() bool {
+	g.mu.Lock()
+	defer g.mu.Unlock()
+	return g.blocked && len(g.queue) == 0
+}
 
 type CloseCase struct {
 	Before []byte `json:"before"`
@@ -375,6 +384,9 @@ type TimedCase struct {
 	Segs [][]byte `json:"segs"`
 	Gaps []string `json:"gaps"` // after segment i: "none" | "read" | "long"
 	End  string   `json:"end"`
+	// Lag: the consumer takes nothing until the last long gap is over, so
+	// the Escape timeout fires while the parser's queue may be full
+	Lag bool `json:"lag,omitempty"`
 }
 
 const longGap = 70 * time.Millisecond
@@ -398,13 +410,28 @@ func runTimedOnce(c TimedCase) string {
 		}
 	}
 	cr := pdrive.NewChunkReader(stream, splits)
+	var start chan struct{}
+	if c.Lag && len(sleepAt) > 0 {
+		start = make(chan struct{})
+	}
 	cr.Gate = func(off int) {
 		if sleepAt[off] {
 			delete(sleepAt, off)
 			time.Sleep(longGap)
+			if len(sleepAt) == 0 && start != nil {
+				close(start)
+				start = nil
+				// let the consumer take what is queued before the next
+				// byte is handed to the parser
+				time.Sleep(5 * time.Millisecond)
+			}
 		}
 	}
-	out := pdrive.RunReader(cr, true, 30*time.Second)
+	var lag <-chan struct{}
+	if start != nil {
+		lag = start
+	}
+	out := pdrive.RunReaderLagging(cr, true, 30*time.Second, lag)
 	if msg := pdrive.Lifecycle(out); msg != "" {
 		return msg
 	}
@@ -470,6 +497,7 @@ func genTimed(rt *rapid.T) TimedCase {
 		}
 		c.Gaps = append(c.Gaps, gap)
 	}
+	c.Lag = longs > 0 && rapid.IntRange(0, 2).Draw(rt, "lag") == 1
 	return c
 }
 
@@ -495,6 +523,9 @@ func TestEscapeTiming(t *testing.T) {
 			if hasLoneEsc(c) {
 				harness.R.Nontrivial(sub, c)
 				harness.R.Label(sub, "lone-esc-then-silence")
+				if c.Lag {
+					harness.R.Label(sub, "lone-esc-then-silence, consumer lagging")
+				}
 			} else {
 				harness.R.Label(sub, "no-lone-esc")
 			}
